@@ -19,6 +19,7 @@ func init() {
 		ID:    "switch/matrix",
 		Text:  "every function that implements lax equality for a numeric receiver kind (the LaxEqual methods of SmallInt, BigInt, Float, BigFloat and the generic Strict*LaxEqual helpers of the sized kinds) has an arm for every numeric representation that any of them has an arm for; and for each receiver kind the functions implementing <, <=, >, >= have arms for identical sets of representations",
 		Floor: 20,
+		Arch:  true,
 		Run:   runSwitchMatrix,
 	})
 }
